@@ -146,7 +146,7 @@ func c17ReadPath(p *core.Program, r *core.Report) {
 			}
 			for _, pn := range f.Names {
 				pobj := info.Defs[pn]
-				var opens []*ast.CallExpr
+				var opens, others []*ast.CallExpr
 				ast.Inspect(fi.Decl.Body, func(n ast.Node) bool {
 					call, ok := n.(*ast.CallExpr)
 					if !ok {
@@ -187,9 +187,19 @@ func c17ReadPath(p *core.Program, r *core.Report) {
 					visit(call.Args[0], 0)
 					if uses {
 						opens = append(opens, call)
+					} else {
+						others = append(others, call)
 					}
 					return true
 				})
+				// a function that reads the file it is asked for by name reads no other file: an open call
+				// whose path does not come from that name answers the request with another file's content
+				if len(opens) > 0 {
+					for _, oc := range others {
+						r.Viol("C17.read-path", core.FuncName(fi.Obj)+" "+stripSpaces(types.ExprString(oc.Fun))+"("+stripSpaces(types.ExprString(oc.Args[0]))+")", p.Pos(oc.Pos()),
+							"beside the file named by `"+pn.Name+"` this function opens `"+types.ExprString(oc.Args[0])+"`, a path that does not come from the requested name: a request for one log file can be answered with the content of another")
+					}
+				}
 				for _, oc := range opens {
 					conds := dominatingConds(fi, oc, norm)
 					name := pn.Name
